@@ -646,6 +646,23 @@ pub fn cli_train(thorough: bool, seed: u64, family: &str) {
                                     v.sort();
                                     v
                                 };
+                                // a token that occurs in the corpus only WITHOUT tags takes its tags from the tag dictionary or not depending on
+                                // whether its sentence has tag slots at all (`token.tags().is_empty()`), which the text form of this step does not
+                                // preserve either (`漢カ/ カ` has one empty slot, its re-written form none): no property speaks about such tokens
+                                // ("occurs with tags in the corpus, or only in the tag dictionary"), so they are left out of the comparison
+                                let mut untagged_only: std::collections::BTreeMap<String, bool> = Default::default();
+                                for (k, l) in &c.corpus {
+                                    let sent = if *k == 't' { Sentence::from_tokenized(l) } else { Sentence::from_partial_annotation(l) };
+                                    if let Ok(sent) = sent {
+                                        for t in sent.iter_tokens() {
+                                            let e = untagged_only.entry(norm(t.surface())).or_insert(true);
+                                            if t.tags().iter().any(|x| x.is_some()) {
+                                                *e = false;
+                                            }
+                                        }
+                                    }
+                                }
+                                let key = |x: &crate::model::AbsModel| -> Vec<(String, Vec<Vec<String>>)> { key(x).into_iter().filter(|(t, _)| untagged_only.get(t) != Some(&true)).collect() };
                                 if key(&m) != key(&lm) {
                                     problems.push(format!("the tool's model has the tag models {:?}, the library trained on the same data has {:?}", key(&m), key(&lm)));
                                 }
